@@ -1,6 +1,7 @@
 package main
 
 import (
+	"os"
 	"sync"
 	"bufio"
 	"io"
@@ -81,6 +82,10 @@ func (s *State) clone() *State {
 		for k, v := range f.env {
 			g.env[k] = v
 		}
+		g.entry = make(map[string]Val, len(f.entry))
+		for k, v := range f.entry {
+			g.entry[k] = v
+		}
 		g.visits = make(map[*ssa.BasicBlock]int, len(f.visits))
 		for k, v := range f.visits {
 			g.visits[k] = v
@@ -157,8 +162,10 @@ type Engine struct {
 	curFrame  *Frame
 	typeIDs   map[string]int
 	contracts map[string]*Contract
+	ifaceContracts map[string]*Contract // assumed contracts on interface methods / bodyless externals, by full name
 	globals   []*GlobalInv
 	specPaths int
+	globalNames map[int64]string
 	opaqueT   map[string]bool // spec functions kept uninterpreted while the current target is verified
 	heapTouch int
 	pure      map[string]*pureMemo
@@ -441,6 +448,9 @@ func (e *Engine) wtRef(s *State, r Term) Term {
 
 func elemSort(t types.Type) string {
 	so, ok := sortOf(t)
+	if _, isI := t.Underlying().(*types.Interface); isI && !ok {
+		return "Ref" // an interface element is kept by the identity of its dynamic value
+	}
 	if !ok {
 		panic(fmt.Sprintf("unsupported element type %s", t))
 	}
@@ -621,6 +631,11 @@ func (e *Engine) load(s *State, p PtrV, t types.Type) Val {
 		m := e.heapArr(s, "M_"+sortTag(so), refArrSort(arrSort(so)))
 		return ArrV{e.name(s, sel(m, p.Ref, arrSort(so))), p.N, p.Elem}
 	case "hcell":
+		if pt, isP := p.Elem.Underlying().(*types.Pointer); isP && p.Ref.C != nil && p.Ref.C.Sign() < 0 && strings.HasPrefix(e.globalNames[p.Ref.C.Int64()], "Err") {
+			// a package-level *Error value (errors.ErrUnauthorized, ...): initialised at declaration, never
+			// reassigned (assumption, listed) - a non-nil object with an identity of its own
+			return e.ptrFromRef(refT(p.Ref.C.Int64()-2000006), pt.Elem())
+		}
 		if _, isI := p.Elem.Underlying().(*types.Interface); isI {
 			if p.Ref.C != nil && p.Ref.C.Sign() < 0 {
 				return IfaceV{IsNil: boolT(false), V: p.Ref} // package-level error value (assumed initialised, never reassigned): its identity is the variable's
@@ -861,6 +876,10 @@ func (e *Engine) globalPtr(s *State, g *ssa.Global) PtrV {
 		h = (h*131 + int64(c)) % 1000003
 	}
 	ref := refT(-(h + 1)) // negative refs: never equal to params (>=0) or fresh (>0)
+	if e.globalNames == nil {
+		e.globalNames = map[int64]string{}
+	}
+	e.globalNames[-(h + 1)] = g.Name()
 	p := e.ptrFromRef(ref, et)
 	return p
 }
@@ -1298,10 +1317,18 @@ func (e *Engine) ifaceRef(v IfaceV) Term {
 	if v.IsNil.C != nil && v.IsNil.C.Sign() != 0 {
 		return refT(0)
 	}
+	if v.Box.S != "" {
+		return v.Box
+	}
 	switch x := v.V.(type) {
 	case Term:
-		return x
+		if x.Sort == "Ref" {
+			return x
+		}
 	case PtrV:
+		if x.Nil {
+			return refT(0)
+		}
 		return x.Ref
 	}
 	panic(fmt.Sprintf("interface payload %T cannot be stored", v.V))
@@ -1493,6 +1520,11 @@ func newSession() *session {
 func (x *session) send(t string) { io.WriteString(x.in, t) }
 
 func (x *session) ask(t string) string {
+	if p := os.Getenv("GOVC_SESSLOG"); p != "" {
+		fh, _ := os.OpenFile(p, os.O_APPEND|os.O_CREATE|os.O_WRONLY, 0644)
+		fh.WriteString(t)
+		fh.Close()
+	}
 	io.WriteString(x.in, t)
 	for {
 		l, err := x.out.ReadString('\n')
